@@ -254,6 +254,18 @@ func (p *Path) vpIntrinsic(caller *frame, fn *ssa.Function, name string, args []
 			return Struct{p.xfScaled(*t.X, int(t.Format[2]-'0'))}
 		}
 		p.abortf("vp_TokScaled: unsupported format %q", t.Format)
+	case "vp_LazyGoroutines":
+		// choose the schedule: false = run at spawn (default), true = run when the spawner blocks or yields
+		p.lazyGo = boolArg(args[0]).IsTrue()
+		return nil
+	case "vp_Yield":
+		// the caller would block waiting for progress of other goroutines: let them run
+		for len(p.pendingGo) > 0 {
+			p.runPendingOne()
+		}
+		return nil
+	case "vp_BlockForever":
+		panic(targetPanic{msg: "blocks forever: " + p.strArg(args[0], "reason")})
 	case "vp_ExitCode":
 		// the exit status that (*os.ProcessState).ExitCode reports from now on
 		p.exitCode = int(p.intArg(args[0], "exit code"))
